@@ -11,7 +11,8 @@
   <write> = <tag>.<len>.<attr>=<val>+<attr>=<val>…  (attrs `0` = none; names m<k> ctype cenc cdisp clang cache expires etag tags checksums)
   <init>  = `-` | <write>;  <reqs> = comma separated `P<write>` `M<write>` `D` `G` `H`;  <sched> = digits (request index per step)
   <events> = comma separated `<op>:<inv>:<ret|->:<res>`, op = W<v> | D | R, res = ok | missing | v<v> | garbled | -
-  <view>  = the client's view of a read answer: `read(clen=N,body=T.D|-,short=0|1,etag=V|-,meta=…,hdrs=…)`
+  <view>  = the client's view of a read answer: `read(clen=N,body=T.D|-,short=0|1,etag=V|-,meta=…,hdrs=…,tags=C|-)`
+          (tags: the value of the tag attribute = number of tags in the correspondence runs)
 -/
 import Vgw.Model.Conc
 import Vgw.Spec.Register
@@ -86,7 +87,7 @@ def showRead (r : ReadResp) : String :=
     | none => "-"
     | some b => s!"{b.tag}.{b.len}"
   let short := "0"
-  s!"read(clen={r.size},body={body},short={short},etag={showOptNat r.etag},meta={showKV (fun k => s!"m{k}") r.umeta},hdrs={showKV attrName r.hdrs})"
+  s!"read(clen={r.size},body={body},short={short},etag={showOptNat r.etag},meta={showKV (fun k => s!"m{k}") r.umeta},hdrs={showKV attrName r.hdrs},tags={showOptNat r.tags})"
 
 def showResp : Option Resp → String
   | none => "pending" | some .ok => "ok" | some .noSuchKey => "nokey" | some .err => "err" | some (.read r) => showRead r
@@ -215,6 +216,7 @@ def judge (isHead : Bool) (writes : List Write) (view : String) : String :=
     let etag := (field fs "etag").toNat?
     let metaS := field fs "meta"
     let hdrS := field fs "hdrs"
+    let tagS := field fs "tags"
     -- the write the answer is attributed to: the body's for GET, the length's/ETag's for HEAD
     let base : Option Write :=
       if isHead then
@@ -244,6 +246,10 @@ def judge (isHead : Bool) (writes : List Write) (view : String) : String :=
         w'.blob.tag != w.blob.tag && showKV (fun k => s!"m{k}") o.umeta = metaS && showKV attrName o.hdrs = hdrS
       let probs := if wantMeta = metaS && wantHdrs = hdrS then probs
         else if otherHas then probs ++ ["metadata-from-other-write"] else probs ++ ["metadata-missing"]
+      -- the tag set (GET: x-amz-tagging-count; `-` = no tags) must be the one of the same write
+      let wantTags := showOptNat want.tags
+      let probs := if isHead || tagS = "" || tagS = wantTags then probs
+        else if tagS = "-" then probs ++ ["tags-missing"] else probs ++ ["tags-from-other-write"]
       let probs :=
         if isHead then (if clen = w.blob.len then probs else probs ++ ["length-from-other-write"])
         else
@@ -262,7 +268,10 @@ def handle : List String → Option String
     let (s, tr) := runTrace c (init c fs rqs) (parseSched sched) []
     let steps := " ".intercalate tr
     let resps := " ".intercalate ((List.range rqs.length).map fun i => showResp (s.resp i))
-    pure s!"steps {steps} | resp {resps} | final {showOptNat s.fs.key}"
+    let fin := match s.fs.cur with
+      | some ino => showRead (observe ino false)
+      | none => "nokey"
+    pure s!"steps {steps} | resp {resps} | final {fin}"
   | ["enum", strat, mode, ini, reqs, limit] => do
     let c : Cfg := { strat := ← parseStrat strat, rmode := ← parseMode mode }
     let fs ← parseInit ini
